@@ -598,6 +598,12 @@ WORLDS = {
                                        ("submit", "n1"), ("hb", "n1"), ("msg", "AppendEntries", "n1", "n2"),
                                        ("msg", "AppendEntriesResponse", "n2", "n1")],
                     timeouts=2, max_term=4, hbs=1, max_msgs=5),
+    # a just-deposed leader: n0 led term 1 (stable), n1 timed out and won term 2 with n2's vote; n0 has only seen
+    # n1's RequestVote (stepped down, voted) — n1's first AppendEntries to n0 and n2 are still in flight.
+    # Clients may submit to ANY node (the ex-leader included) in that window.
+    "deposed": dict(prefix=ELECT_N0 + [("timeout", "n1"), ("msg", "RequestVote", "n1", "n0"),
+                                       ("msg", "RequestVote", "n1", "n2"), ("msg", "VoteResponse", "n2", "n1")],
+                    submits=2, submit_to="any", hbs=1, max_msgs=5),
     # crash / restart of any node anywhere during replication and during a leader change
     "crash-repl": dict(prefix=ELECT_N0, submits=1, hbs=2, crashes=1, timeouts=1, max_term=2, max_msgs=5),
     "crash-change": dict(prefix=ELECT_N0 + [("submit", "n0")], timeouts=2, max_term=3, hbs=1, crashes=1, max_msgs=4),
@@ -921,6 +927,7 @@ QUICK_WORLDS = [
     ("releader5", "releader5", None, 300_000),
     ("elect-t3", "elect", dict(timeouts=3, max_msgs=4), 300_000),
     ("diverge", "diverge", dict(timeouts=1, max_term=3, hbs=1, max_msgs=4), 300_000),
+    ("deposed", "deposed", None, 300_000),
     ("repl4", "repl4", dict(hbs=0), 300_000),
     ("free", "free", dict(max_msgs=3), 300_000),
     ("crash", "crash-repl", dict(hbs=1, max_msgs=2, timeouts=1), 300_000),
@@ -951,6 +958,7 @@ THOROUGH_WORLDS = [
     ("diverge", "diverge", dict(timeouts=2, max_term=3, hbs=1, max_msgs=4), 600_000),
     ("elect-t2", "elect", dict(timeouts=2, max_msgs=8), 600_000),
     ("split4", "split4", None, 600_000),
+    ("deposed", "deposed", dict(hbs=2, max_msgs=6), 600_000),
     ("releader5", "releader5", None, 600_000),
     ("late-vote", "late-vote", None, 600_000),
 ]
